@@ -4,7 +4,9 @@ Driver for C11 (an NFT moves only by its owner, its approved account or a live o
 Models: the same three NFT models as C10 (approvals / operators are temporary entries with the
 host's TTL semantics).
 
-The monitor does not run the model. From the ACCEPTED operations alone it keeps
+`op` runs the model (`NftIO.stepLine` = print ∘ `NftMon.stepObs`). `mon` never does: it parses the
+op line and the IMPLEMENTATION's observation line and calls the monitor core
+`OZ.NftMon.Auth.checkCore` (OZ/Model/NftMon.lean). From the ACCEPTED operations alone the core keeps
   * the plain ownership map (who owns which token now),
   * ghost approvals  id ↦ (approved, live_until)  — set by an accepted `approve`, dropped by a
     revocation (`live_until = 0`) and by every accepted transfer / burn of that token,
@@ -19,115 +21,18 @@ and checks the property's conclusion on the implementation's observations:
   * after an accepted transfer / burn `get_approved(token)` is none;
   * every approval / operator the implementation reports is a live ghost one (nothing stale:
     expired, revoked, cleared or a previous owner's).
+
+The core is proved sound in OZ/Props/C11Mon.lean (`monitor_accepts_every_model_trace`: silent on
+every trace of the three models that observes the tokens it moves). NOT covered by that theorem,
+string level only: the alarm `site=nft.parse` below (an op / observation line that does not parse)
+and the parsers themselves.
 -/
 namespace OZ.Drv.C11
-open OZ.Drv OZ.Drv.NftIO
-
-structure Mon where
-  batches : List (Nat × Nat × Nat)          -- first, last, owner
-  over : List (Nat × Option Nat)            -- point overrides, most recent first
-  appr : List (Nat × Nat × Nat)             -- id, approved, live_until
-  oper : List (Nat × Nat × Nat)             -- owner, operator, live_until
-  next : Nat
-
-def ghostOwner (m : Mon) (id : Nat) : Option Nat :=
-  match m.over.find? (fun p => p.1 = id) with
-  | some (_, o) => o
-  | none =>
-    match m.batches.find? (fun (f, l, _) => f ≤ id ∧ id ≤ l) with
-    | some (_, _, o) => some o
-    | none => none
-
-def setOwner (m : Mon) (id : Nat) (o : Option Nat) : Mon :=
-  { m with over := (id, o) :: m.over.filter (fun p => p.1 ≠ id),
-           appr := m.appr.filter (fun p => p.1 ≠ id) }
-
-def liveAppr (m : Mon) (now id : Nat) : Option Nat :=
-  match m.appr.find? (fun p => p.1 = id) with
-  | some (_, a, lu) => if now ≤ lu then some a else none
-  | none => none
-
-def liveOper (m : Mon) (now o p : Nat) : Bool :=
-  match m.oper.find? (fun x => x.1 = o ∧ x.2.1 = p) with
-  | some (_, _, lu) => decide (now ≤ lu)
-  | none => false
+open OZ.Drv OZ.Drv.NftIO OZ.NftMon OZ.NftMon.Auth
 
 def check (m : Mon) (opl obs : String) : Mon × Option String :=
-  match parseObs obs, parseOpLine opl with
-  | some o, some ol =>
-    let a := fun (i : Nat) => ol.a.getD i 0
-    let now := o.now
-    let inAuth := fun (x : Nat) => ol.auth.contains x
-    let (m1, fail1) : Mon × Option String :=
-      if ¬ o.ok then (m, none) else
-      match ol.kind with
-      | "mint" =>
-        match o.ret with
-        | some id => ({ setOwner m id (some (a 0)) with next := id + 1 }, none)
-        | none => (m, none)
-      | "mint_id" => (setOwner m ol.id (some (a 0)), none)
-      | "batch_mint" =>
-        match o.ret with
-        | some last => ({ m with batches := (last + 1 - ol.n, last, a 0) :: m.batches, next := last + 1 }, none)
-        | none => (m, none)
-      | "transfer" | "burn" =>
-        let f := a 0
-        let m' := setOwner m ol.id (if ol.kind = "transfer" then some (a 1) else none)
-        if ghostOwner m ol.id ≠ some f then
-          (m', some s!"site=nft.auth.not-owner token {ol.id} taken from {f}, owner is {showOpt (ghostOwner m ol.id)}")
-        else if ¬ inAuth f then
-          (m', some s!"site=nft.auth.transfer-unauthorized token {ol.id} left its owner {f} without {f} authorizing (auth={ol.auth})")
-        else (m', none)
-      | "transfer_from" | "burn_from" =>
-        let sp := a 0
-        let f := a 1
-        let m' := setOwner m ol.id (if ol.kind = "transfer_from" then some (a 2) else none)
-        if ghostOwner m ol.id ≠ some f then
-          (m', some s!"site=nft.auth.not-owner token {ol.id} taken from {f}, owner is {showOpt (ghostOwner m ol.id)}")
-        else if ¬ inAuth sp then
-          (m', some s!"site=nft.auth.spender-not-authorizing spender {sp} moved token {ol.id} without authorizing (auth={ol.auth})")
-        else if ¬ (sp = f ∨ liveAppr m now ol.id = some sp ∨ liveOper m now f sp) then
-          (m', some s!"site=nft.auth.spender-unjustified spender {sp} moved token {ol.id} of {f} at ledger {now}: not owner, no live approval, no live operator")
-        else (m', none)
-      | "approve" =>
-        let ap := a 0
-        let m' : Mon :=
-          if ol.lu = 0 then { m with appr := m.appr.filter (fun p => p.1 ≠ ol.id) }
-          else { m with appr := (ol.id, a 1, ol.lu) :: m.appr.filter (fun p => p.1 ≠ ol.id) }
-        match ghostOwner m ol.id with
-        | none => (m', some s!"site=nft.auth.approve-nonexistent approval accepted for token {ol.id} without owner")
-        | some ow =>
-          if ¬ inAuth ap then
-            (m', some s!"site=nft.auth.approve-unauthorized approver {ap} did not authorize (auth={ol.auth})")
-          else if ¬ (ap = ow ∨ liveOper m now ow ap) then
-            (m', some s!"site=nft.auth.approve-unauthorized approver {ap} is neither the owner {ow} of token {ol.id} nor its live operator")
-          else (m', none)
-      | "approve_for_all" =>
-        let ow := a 0
-        let rest := m.oper.filter (fun x => ¬ (x.1 = ow ∧ x.2.1 = a 1))
-        let m' : Mon := if ol.lu = 0 then { m with oper := rest } else { m with oper := (ow, a 1, ol.lu) :: rest }
-        if ¬ inAuth ow then
-          (m', some s!"site=nft.auth.operator-grant-unauthorized owner {ow} did not authorize (auth={ol.auth})")
-        else (m', none)
-      | _ => (m, none)
-    match fail1 with
-    | some f => (m1, some f)
-    | none =>
-      let moved := o.ok ∧ (ol.kind = "transfer" ∨ ol.kind = "transfer_from" ∨ ol.kind = "burn" ∨ ol.kind = "burn_from")
-      let fail : Option String :=
-        if moved ∧ ¬ ol.qa.contains ol.id then some "site=nft.auth.unobserved the moved token is not in the observed set"
-        else if moved ∧ o.appr.any (fun p => p.1 = ol.id) then
-          some s!"site=nft.auth.approval-not-cleared get_approved({ol.id}) is still set after the token moved"
-        else
-          match o.appr.find? (fun (id, ap) => liveAppr m1 now id ≠ some ap) with
-          | some (id, ap) =>
-            some s!"site=nft.auth.stale-approval get_approved({id}) = {ap} at ledger {now} but the live approval is {showOpt (liveAppr m1 now id)}"
-          | none =>
-            match o.opr.find? (fun (ow, p) => ¬ liveOper m1 now ow p) with
-            | some (ow, p) =>
-              some s!"site=nft.auth.stale-operator is_approved_for_all({ow},{p}) at ledger {now} without a live grant"
-            | none => none
-      (m1, fail)
+  match parseObs obs, parseLine opl with
+  | some o, some l => checkCore m l o
   | _, _ => (m, some s!"site=nft.parse unparsable line {obs}")
 
 def machine : Machine where
@@ -135,7 +40,7 @@ def machine : Machine where
   init := initM
   op := stepLine
   μ := Mon
-  minit := fun _ => { batches := [], over := [], appr := [], oper := [], next := 0 }
+  minit := fun _ => Auth.init
   mon := check
 
 end OZ.Drv.C11
